@@ -40,10 +40,10 @@ def run(ctx):
     fresh_read(ctx, f, cfg)
 
 
-def eq_coverage(ctx, f, fam, adt, cfg):
+def eq_coverage(ctx, f, fam, adt, cfg, R="C11.eq-coverage"):
     a = f.adts.get(adt)
     eqs = [b for b in f.impl_methods("PartialEq", "eq") if b.impl_self == adt]
-    if not ctx.floor("C11.eq-coverage", "impl PartialEq for %s" % adt, len(eqs), 1) or not a:
+    if not ctx.floor(R, "impl PartialEq for %s" % adt, len(eqs), 1) or not a:
         return
     b = eqs[0]
     fields = [fl["name"] for fl in a["variants"][0]["fields"]]
@@ -79,13 +79,68 @@ def eq_coverage(ctx, f, fam, adt, cfg):
                     scan_place(x["pl"])
     both = used[1] & used[2]
     missing = [x for x in fields if x != "id" and x not in both]
-    ctx.instance("C11.eq-coverage", b.path, {"compared_on_both_sides": sorted(both), "not_compared": missing, "id_compared": "id" in both},
-                 "every field except id is compared (id is not)", not missing and "id" not in both, cfg)
+    # guards: a field may be compared conditionally only under (a) the outcome of earlier field comparisons (the && chain) or
+    # (b) a test of one of the rule's own enum-typed fields against a constant (strategy-dependent parameters)
+    enum_fields = set()
+    for fl in a["variants"][0]["fields"]:
+        for ap, ad in f.adts.items():
+            if ad["kind"] == "Enum" and ap in fl["ty"]:
+                enum_fields.add(fl["name"])
+    opaque_guards = []
+    for bi, blk in enumerate(b.blocks):
+        t = blk["term"]
+        if blk["cleanup"] or not t or t["k"] != "switch":
+            continue
+        at = sl.of_operand(t["op"])
+        fl_self = {x.rsplit(".", 1)[-1] for x in at if x.startswith("field:" + adt + ".")}
+        has_other = "param:other" in at
+        calls = sorted(x for x in at if x.startswith("call:") and not (("PartialEq" in x or "PartialOrd" in x) or x.endswith(("::deref", "::eq", "::ne", "::as_ref", "::borrow"))))
+        if has_other and "param:self" in at and not calls:
+            continue        # chain: comparison between self.X and other.X
+        if not has_other and fl_self and fl_self <= enum_fields and not calls:
+            continue        # test on an own enum field (match self.strategy / == Strategy::X)
+        # something else decides whether later fields are compared
+        guarded = sorted({x for bj in range(len(b.blocks)) if b.dominates(bi, bj) and bj != bi for x in _fields_in_block(b, sl, adt, bj)})
+        if guarded:
+            opaque_guards.append({"guard": [short(c) for c in calls] or sorted(fl_self), "fields_compared_under_it": guarded})
+    okg = not opaque_guards
+    ctx.instance(R, b.path, {"compared_on_both_sides": sorted(both), "not_compared": missing, "id_compared": "id" in both, "opaque_guards": opaque_guards},
+                 "every field except id is compared (id is not); conditional comparisons only under own strategy enums", not missing and "id" not in both and okg, cfg)
     if missing:
-        ctx.violation("C11.eq-coverage", "C11.eq-coverage|%s|missing:%s" % (fam, ",".join(missing)),
-                      "%s rule equality ignores %s: a reload that changes it keeps the old controller and the change never takes effect" % (fam, missing), b.loc(), config=cfg)
+        ctx.violation(R, "%s|%s|missing:%s" % (R, fam, ",".join(missing)),
+                      "%s rule equality ignores %s: a reload that changes it is treated as unchanged and the change never takes effect" % (fam, missing), b.loc(), config=cfg)
     if "id" in both:
-        ctx.violation("C11.eq-coverage", "C11.eq-coverage|%s|id" % fam, "%s rule equality compares ids: re-loading the same rules under new ids would drop their state" % fam, b.loc(), config=cfg)
+        ctx.violation(R, "%s|%s|id" % (R, fam), "%s rule equality compares ids: re-loading the same rules under new ids would drop their state" % fam, b.loc(), config=cfg)
+    for g in opaque_guards:
+        ctx.violation(R, "%s|%s|conditional:%s" % (R, fam, ",".join(g["fields_compared_under_it"])),
+                      "%s rule equality compares %s only when %s holds - not a test of the rule's own strategy field: a change of those parameters can go unnoticed" % (fam, g["fields_compared_under_it"], g["guard"]), b.loc(), config=cfg)
+
+
+def _fields_in_block(b, sl, adt, bj):
+    out = set()
+    blk = b.blocks[bj]
+    if blk["cleanup"]:
+        return out
+    pls = []
+    for s in blk["stmts"]:
+        if s["k"] == "assign":
+            rv = s["rv"]
+            if "pl" in rv:
+                pls.append(rv["pl"])
+            for key in ("op", "a", "b"):
+                if key in rv and isinstance(rv[key], dict) and rv[key].get("pl"):
+                    pls.append(rv[key]["pl"])
+    t = blk["term"]
+    if t and t["k"] == "call":
+        for x in t["args"]:
+            if x.get("pl"):
+                pls.append(x["pl"])
+    for pl in pls:
+        for p in pl["p"]:
+            if p.startswith("." + adt + "."):
+                if "param:other" in sl.of_place({"l": pl["l"], "p": []}):
+                    out.add(p.rsplit(".", 1)[-1])
+    return out
 
 
 def _is_max(op, atoms):
@@ -154,6 +209,63 @@ def reuse_index(ctx, f, fam, cfg):
                      "index set only on the true edge of %s(old rule, new rule)" % guard.split(":")[1], ok, cfg)
         if not ok:
             ctx.violation("C11.reuse-index", "C11.reuse-index|%s|%s" % (fam, which), "%s: the %s index is not set exactly where %s holds between the old and the new rule" % (b.path, which, guard.split(":")[1]), b.loc(), config=cfg)
+    # sufficiency: per old controller, an equal rule ALWAYS yields the equal index (no other condition may hide it), and a
+    # reusable one yields the reuse index when none was found yet
+    its = [bb for bb, t in b.calls() if callee_is(t, "Iterator::next")]
+    if its and None not in roots:
+        eq_l, re_l = roots
+
+        def cls(atoms, op=None):
+            pl = op_place(op) if op else None
+            if op is not None and pl is not None and pl["l"] == re_l or (op is not None and ("lid:%d" % re_l) in atoms and not any(x.startswith("call:") for x in atoms)):
+                return "reuse_idx"
+            if any_atom(atoms, "call:Iterator::next") and "discr" in atoms:
+                return "iter"
+            return make_classifier([])(atoms, op)
+
+        def oname(t, atoms):
+            d = callee_def(t)
+            if "PartialEq" in d and d.endswith("::eq") and all(("Arc<core::%s::rule::Rule>" % fam) in x for x in (t.get("arg_tys") or ["", ""])[:2]):
+                return "rules_equal"
+            if d.endswith("Rule::is_stat_reusable"):
+                return "stat_reusable"
+            return d.rsplit("::", 1)[-1]
+        w = D.Walker(f, b, cls, opaque_name=oname)
+        w.force_opaque = lambda t: "rules_equal" if oname(t, set()) == "rules_equal" else None
+        start = b.term(its[0])["target"]
+        paths = w.walk(start, lambda bb, env: ("iteration-done",) if bb == its[0] else None)
+
+        def assigns(p, l):
+            n = 0
+            for x in p["blocks"]:
+                for st in b.blocks[x]["stmts"]:
+                    if st["k"] == "assign" and st["lhs"]["l"] == l and not st["lhs"]["p"] and not _is_max(st["rv"].get("op") if st["rv"]["k"] == "use" else None, set()):
+                        n += 1
+            return n
+
+        def outcome(p, asg):
+            return "eq=%d,reuse=%d" % (assigns(p, eq_l), assigns(p, re_l))
+
+        def expected(asg):
+            if asg["disc"].get("iter") != 1:
+                return None
+            e = asg["opaque"].get("rules_equal")
+            if e is None:
+                return None
+            if e:
+                return "eq=1,reuse=0"
+            r = asg["opaque"].get("stat_reusable")
+            m = D.rel_of(asg, "reuse_idx", "const:%d" % (2 ** 64 - 1))
+            if r is None or m is None:
+                return None
+            return "eq=0,reuse=1" if (r and m == "=") else "eq=0,reuse=0"
+        n, ncon, mism = run_table(ctx, "C11.reuse-index/complete", b.path, cfg, paths, outcome, expected)
+        okc = not mism and ncon >= 4
+        ctx.instance("C11.reuse-index/complete", b.path, {"rows": n, "constrained": ncon, "mismatches": mism[:3]},
+                     "equal rule -> equal index (always); else first stat-reusable rule -> reuse index", okc, cfg)
+        if not okc:
+            ctx.violation("C11.reuse-index", "C11.reuse-index|%s|complete" % fam,
+                          "an old controller whose rule equals the new rule is not always recognised (some other condition hides it): its state is rebuilt on reload: %s" % (mism[:1] or "tests not recognised"), b.loc(), config=cfg)
     return b
 
 
@@ -277,6 +389,39 @@ def rebuild(ctx, f, fam, builder, cfg):
                  "equal old rule -> push the old object, no generator; otherwise generator(new rule, old stat iff reuse index set) and push its result", ok, cfg)
     if not ok:
         ctx.violation("C11.rebuild", "C11.rebuild|%s" % fam, "%s does not keep the old object for an unchanged rule / build a new one for a changed rule: %s" % (builder, bad[:2] or {"reuse": n_reuse, "gen": n_gen}), b.loc(), config=cfg)
+    # an object / statistics handed over is taken OUT of the old list (so it can be handed out at most once per rebuild);
+    # judged per feasible path of the symbolic walk (the removal is guarded by the same index test as the hand-over)
+    removes = {bb for bb, t in b.calls() if callee_def(t).endswith(("Vec::<T, A>::remove", "Vec::<T, A>::swap_remove"))}
+    lost = []
+    n_take = 0
+    for p_ in paths:
+        seq = []
+        for x in p_["blocks"]:
+            if x in gen_sites:
+                seq.append(gen_sites[x])
+            if x in pushes:
+                seq.append("push " + pushes[x])
+            if x in removes:
+                seq.append("remove")
+        # is the path feasible at all? (some assignment satisfies all its literals)
+        if p_["outcome"][0] != "iteration-done":
+            continue
+        if _contradictory(p_["lits"]):
+            continue
+        if "push old" in seq:
+            n_take += 1
+            if "remove" not in seq:
+                lost.append("equal object")
+        if any(e.startswith("gen(new rule, old stat)") for e in seq) and "push generated" in seq:
+            n_take += 1
+            if "remove" not in seq:
+                lost.append("reused statistics")
+    lost = sorted(set(lost))
+    ctx.instance("C11.rebuild/take-out", b.path, {"paths_handing_over": n_take, "remove_sites": len(removes), "not_removed_on_some_path": lost},
+                 "whatever is reused is removed from the old list before the next rule is considered", not lost and bool(removes) and n_take >= 2, cfg)
+    if lost or not removes or n_take < 2:
+        ctx.violation("C11.rebuild", "C11.rebuild|%s|take-out" % fam,
+                      "%s hands over %s of an old rule without removing it from the old list: a second new rule can inherit the same object (e.g. two rules sharing one private window)" % (builder, lost or "state"), b.loc(), config=cfg)
     # the generator gets the NEW rule
     for bb, t in b.calls():
         if callee_is(t, "Fn::call"):
@@ -287,6 +432,38 @@ def rebuild(ctx, f, fam, builder, cfg):
             ctx.instance("C11.rebuild/new-rule", "%s@%s" % (b.path, gen_sites.get(bb)), "generator argument derives from the iterated new rules: %s" % okn, "true", okn, cfg)
             if not okn:
                 ctx.violation("C11.rebuild", "C11.rebuild|%s|generator-arg" % fam, "the generator is not called with the new rule", b.loc(bb), config=cfg)
+
+
+def _contradictory(lits):
+    """A path is infeasible if it asserts an atom and its negation (same comparison with both outcomes)."""
+    pos, neg = set(), set()
+    for l in lits:
+        if l[0] == "not":
+            neg.add(l[1])
+        else:
+            pos.add(l)
+    if pos & neg:
+        return True
+    # cmp atoms: a == b together with a != b etc.
+    rel = {}
+    for l in pos:
+        if l[0] == "cmp":
+            rel.setdefault((l[2], l[3]), []).append((l[1], True))
+    for l in neg:
+        if l[0] == "cmp":
+            rel.setdefault((l[2], l[3]), []).append((l[1], False))
+    for k, lst in rel.items():
+        ok_any = False
+        for r in "<=>":
+            good = True
+            for sym, want in lst:
+                v = {"<": r == "<", "<=": r in "<=", ">": r == ">", ">=": r in ">=", "==": r == "=", "!=": r != "="}[sym]
+                if v != want:
+                    good = False
+            ok_any = ok_any or good
+        if not ok_any:
+            return True
+    return False
 
 
 def old_list(ctx, f, fam, builder, emap, cfg):
